@@ -3,5 +3,5 @@
 import json, sys
 p = sys.argv[1].rstrip('/') + '/meta.json'
 m = json.load(open(p))
-m['confirmed'] = {"applies_to": "/repo HEAD (git apply)", "demo": sys.argv[2], "detected_by": sys.argv[3], "date": "2026-09-24"}
+m['confirmed'] = {"applies_to": "/repo HEAD (git apply)", "demo": sys.argv[2], "detected_by": sys.argv[3], "date": "2026-09-25"}
 json.dump(m, open(p, 'w'), indent=1)
